@@ -621,6 +621,16 @@ func loadRangeArgs(call *ssa.Call) (start, limit ssa.Value) {
 // nor an exit of the function is reached without passing `at`.  found=false
 // when no counted loop around `at` is recognised.
 func passesEveryIteration(at ssa.Instruction) (every, found bool) {
+	return passesIteration(at, true)
+}
+
+// passesEveryCompletedIteration: as passesEveryIteration, but an iteration that leaves the function
+// (returns an error) need not have passed `at`: every iteration after which the loop goes on has.
+func passesEveryCompletedIteration(at ssa.Instruction) (every, found bool) {
+	return passesIteration(at, false)
+}
+
+func passesIteration(at ssa.Instruction, exitsCount bool) (every, found bool) {
 	fn := at.Parent()
 	var inner *ssa.BasicBlock
 	for _, hb := range fn.Blocks {
@@ -646,7 +656,7 @@ func passesEveryIteration(at ssa.Instruction) (every, found bool) {
 		return false, false
 	}
 	by, _ := reach(Site{inner.Succs[0], -1}, func(in ssa.Instruction) bool {
-		return in == terminator(inner) || isExit(in)
+		return in == terminator(inner) || (exitsCount && isExit(in))
 	}, newCuts().addInstr(at))
 	return !by, true
 }
